@@ -91,3 +91,7 @@ func paramsAsBuiltins(prog []*model.N, order []string) (out []*model.N, ok bool)
 }
 
 var builtinParamOrder = []string{model.BiInputLatin, model.BiMax, model.BiLen, model.BiMin, model.BiPow, model.BiAppend, model.BiInput, model.BiClock, model.BiRemove, model.BiKeys}
+
+// names whose spelling Unicode normalisation would change (U+09DF, U+09DC, U+09DD are composition
+// exclusions; e + U+0301 composes), usable wherever an identifier is
+var normalisationSensitiveNames = []string{"\u09ac\u09df\u09b8", "\u09b8\u09ae\u09df", "\u09ac\u09dc", "e\u0301x", "\u0997\u09be\u09dd", "\u09a8\u09df", "k\u09df", "\u09df\u09df"}
